@@ -5,6 +5,14 @@ package c18
 //
 // A program is a string such as "LT/L/TL": goroutines separated by '/', each a
 // sequence of operations: 'L' = Lock(); Unlock()   'T' = if TryLock() { Unlock() }.
+// Lower-case 'l' and 't' are the same operations on a SECOND mutex: every
+// statement of the property is per mutex (a TryLock of one succeeds whatever
+// happens on the other; an Unlock of one wakes a waiter of that one), so state
+// shared between instances shows as a violation on one of them.
+// 'H' / 'h' = Lock() of the first / second mutex that is never followed by an
+// Unlock (a holder that keeps the mutex for good): goroutines waiting for THAT
+// mutex then legitimately wait forever, and the execution ends with them
+// parked; anybody parked on a mutex that nobody holds is a lost wake-up.
 // Programs respect the API contract by construction: only the holder unlocks.
 //
 // Steps. The instrumented code calls tmutex.VerifYield immediately before every
@@ -48,6 +56,7 @@ type opRec struct {
 }
 
 type gstate struct {
+	mx       int  // which mutex the operation in progress acts on
 	kind     byte // operation in progress: 'L','T','U', 0 = none
 	active   bool // has executed at least one step of the current operation
 	opSteps  int
@@ -66,17 +75,21 @@ type gstate struct {
 }
 
 type world struct {
-	m       tmutex.Mutex
+	m       [2]tmutex.Mutex
 	prog    []string
 	gs      []gstate
 	clock   int // number of steps started
 	lastG   int
-	holders int
-	epoch   int // number of operations that executed their first step
-	hist    []opRec
+	holders [2]int
+	epoch   [2]int // per mutex: number of operations that executed their first step
+	hist    [2][]opRec
+	// heldForGood: a goroutine locked the mutex and will never unlock it (op 'H'/'h')
+	heldForGood [2]bool
 	fail    *evid.Failure
 	tracing bool
 	log     []string
+
+	waitersOfHeldForGood bool // the execution ended with goroutines legitimately parked on a mutex held for good
 
 	// statistics of this execution (for labels / the non-trivial rule)
 	ntPreempt    bool // a pre-emption inside Lock's slow path or inside Unlock after its first step
@@ -185,17 +198,17 @@ func (w *world) stepBegins(g int) {
 	if !st.active {
 		st.active = true
 		st.inv = w.clock
-		w.epoch++
+		w.epoch[st.mx]++
 		if st.kind == 'T' {
-			st.contended0 = w.holders > 0 || w.otherActive(g)
-			st.epoch0 = w.epoch
+			st.contended0 = w.holders[st.mx] > 0 || w.otherActive(g, st.mx)
+			st.epoch0 = w.epoch[st.mx]
 		}
 	}
 	if st.kind == 'U' && st.holding {
 		// the holder's Unlock executes its first atomic operation now: from here
 		// on it no longer counts as being inside the critical section
 		st.holding = false
-		w.holders--
+		w.holders[st.mx]--
 	}
 	if st.kind == 'T' && st.run > trySpinBound {
 		w.failf("trylock-spins", "g%d: TryLock took %d consecutive steps with no other goroutine running in between: it spins instead of returning", g, st.run)
@@ -205,17 +218,18 @@ func (w *world) stepBegins(g int) {
 	}
 }
 
-func (w *world) otherActive(g int) bool {
+func (w *world) otherActive(g, mx int) bool {
 	for i := range w.gs {
-		if i != g && w.gs[i].active {
+		if i != g && w.gs[i].active && w.gs[i].mx == mx {
 			return true
 		}
 	}
 	return false
 }
 
-func (w *world) begin(g int, kind byte) {
+func (w *world) begin(g int, kind byte, mx int) {
 	st := &w.gs[g]
+	st.mx = mx
 	st.kind, st.active, st.opSteps, st.inv, st.wakes = kind, false, 0, 0, 0
 }
 
@@ -226,7 +240,8 @@ func (w *world) end(g int, kind byte, ok bool) {
 		w.zeroStepOps++
 		st.inv = w.clock
 	}
-	w.hist = append(w.hist, opRec{g: g, kind: kind, ok: ok, inv: st.inv, resp: w.clock})
+	mx := st.mx
+	w.hist[mx] = append(w.hist[mx], opRec{g: g, kind: kind, ok: ok, inv: st.inv, resp: w.clock})
 	if w.tracing {
 		switch kind {
 		case 'T':
@@ -241,7 +256,7 @@ func (w *world) end(g int, kind byte, ok bool) {
 			w.tryOK++
 		} else {
 			w.tryFail++
-			if st.active && !st.contended0 && w.epoch == st.epoch0 {
+			if st.active && !st.contended0 && w.epoch[mx] == st.epoch0 {
 				w.failf("trylock-spurious-fail", "g%d: TryLock returned false although, from its first step to its return, no goroutine held the mutex and no other goroutine was inside a mutex operation", g)
 			}
 		}
@@ -251,12 +266,12 @@ func (w *world) end(g int, kind byte, ok bool) {
 		}
 	}
 	if ok && kind != 'U' {
-		w.holders++
+		w.holders[mx]++
 		st.holding = true
-		if w.holders > 1 {
+		if w.holders[mx] > 1 {
 			var hs []string
 			for i := range w.gs {
-				if w.gs[i].holding {
+				if w.gs[i].holding && w.gs[i].mx == mx {
 					hs = append(hs, fmt.Sprintf("g%d", i))
 				}
 			}
@@ -272,7 +287,7 @@ func parseProg(p string) ([]string, bool) {
 		return nil, false
 	}
 	for _, s := range gs {
-		if len(s) == 0 || len(s) > 8 || strings.Trim(s, "LT") != "" {
+		if len(s) == 0 || len(s) > 8 || strings.Trim(s, "LTltHh") != "" {
 			return nil, false
 		}
 	}
@@ -281,24 +296,36 @@ func parseProg(p string) ([]string, bool) {
 
 func newWorld(prog []string, tracing bool) (*world, []func()) {
 	w := &world{prog: prog, gs: make([]gstate, len(prog)), lastG: -1, tracing: tracing}
-	w.m.Init()
+	tmutex.VerifResetGlobals() // package-level state must not leak from one execution into the next
+	w.m[0].Init()
+	w.m[1].Init()
 	bodies := make([]func(), len(prog))
 	for g := range prog {
 		g := g
 		bodies[g] = func() {
 			for i := 0; i < len(prog[g]); i++ {
-				kind := prog[g][i]
-				w.begin(g, kind)
+				kind, mx := prog[g][i], 0
+				if kind == 'l' || kind == 't' || kind == 'h' {
+					kind, mx = kind-'a'+'A', 1
+				}
+				if kind == 'H' {
+					w.begin(g, 'L', mx)
+					w.m[mx].Lock()
+					w.end(g, 'L', true)
+					w.heldForGood[mx] = true
+					continue
+				}
+				w.begin(g, kind, mx)
 				ok := true
 				if kind == 'L' {
-					w.m.Lock()
+					w.m[mx].Lock()
 				} else {
-					ok = w.m.TryLock()
+					ok = w.m[mx].TryLock()
 				}
 				w.end(g, kind, ok)
 				if ok {
-					w.begin(g, 'U')
-					w.m.Unlock()
+					w.begin(g, 'U', mx)
+					w.m[mx].Unlock()
 					w.end(g, 'U', true)
 				}
 			}
@@ -317,6 +344,19 @@ func (w *world) judge(res *sched.Result) *evid.Failure {
 		return w.fail
 	}
 	if res.Deadlock {
+		lost := false
+		for _, g := range res.Blocked {
+			if st := &w.gs[g]; !(w.heldForGood[st.mx] && w.holders[st.mx] > 0) {
+				lost = true
+			}
+		}
+		if !lost {
+			// everybody still parked waits for a mutex whose holder keeps it for good
+			w.waitersOfHeldForGood = true
+			res.Deadlock = false
+		}
+	}
+	if res.Deadlock {
 		var bl []string
 		for _, g := range res.Blocked {
 			st := &w.gs[g]
@@ -327,19 +367,21 @@ func (w *world) judge(res *sched.Result) *evid.Failure {
 					where += " [note: the scheduler models a receive as enabled iff a value is buffered; with an unbuffered channel a waiter can only be woken while it is already parked in the receive]"
 				}
 			}
-			bl = append(bl, fmt.Sprintf("g%d in %s (step %d of the call) at %s", g, opName(st.kind), st.opSteps, where))
+			bl = append(bl, fmt.Sprintf("g%d in %s of mutex %d (step %d of the call) at %s", g, opName(st.kind), st.mx, st.opSteps, where))
 		}
-		holder := "nobody holds the mutex"
-		if w.holders > 0 {
-			holder = "the mutex is held" // cannot happen: a holder is always enabled
+		holder := "nobody holds a mutex"
+		if w.holders[0]+w.holders[1] > 0 {
+			holder = "a mutex is held" // cannot happen: a holder is always enabled
 		}
 		return evid.Failf("lost-wakeup", "no goroutine can run but %d have not finished (%s): %s", len(res.Blocked), holder, strings.Join(bl, "; "))
 	}
 	if res.Pruned {
 		return nil
 	}
-	if f := linearizable(w.hist); f != nil {
-		return f
+	for mx := range w.hist {
+		if f := linearizable(w.hist[mx]); f != nil {
+			return f
+		}
 	}
 	return nil
 }
